@@ -258,6 +258,7 @@ fn eval_inner(target: &str, input: &str) -> Option<String> {
         "scope_queries" => c09_scope(input),
         "ns_layout" => bounded::ns_layout(input),
         "char_ref" => bounded::char_ref(input),
+        "line_ends" => bounded::line_ends(input),
         "level_order" => bounded::level_order(input),
         "tree_ops" => {
             // "<shape> <cons> <op> <x> <y>[;<op> <x> <y>]..."
@@ -288,10 +289,11 @@ fn inputs(target: &str, large: bool) -> Vec<String> {
         "tree_ops" => {
             // every single call; then (thorough) every sequence of two calls
             let mut calls = Vec::new();
-            for op in ["append", "prepend", "insert_after", "insert_before", "detach", "remove"] {
+            for op in ["append", "prepend", "insert_after", "insert_before", "any_append", "replace", "detach", "remove", "wrap", "unwrap", "attr_set", "attr_del", "ns_set", "ns_del"] {
                 for x in 0..treeops::max_nodes() {
                     for y in 0..treeops::max_nodes() {
-                        if (op == "detach" || op == "remove") && y != 0 { continue; }
+                        if (op == "detach" || op == "remove" || op == "wrap" || op == "unwrap") && y != 0 { continue; }
+                        if (op.starts_with("attr_") || op.starts_with("ns_")) && y > 2 { continue; }
                         calls.push(format!("{} {} {}", op, x, y));
                     }
                 }
@@ -314,6 +316,7 @@ fn inputs(target: &str, large: bool) -> Vec<String> {
         "deep_equal" => deepeq::inputs(),
         "three_routes" => routes::inputs(large),
         "char_ref" => bounded::ref_strings(large),
+        "line_ends" => bounded::line_end_inputs(large),
         "level_order" => { let mut v = Vec::new(); for d in 0..3 { for n in 0..12 { v.push(format!("{} {}", d, n)); } } v }
         "scope_queries" => {
             let decls = ["", "d1", "d2", "d0", "p1", "p2", "q1", "q2", "d1p1", "p1q1", "q1p1", "p2q1", "d0p1", "d2p1", "p1q2"];
@@ -363,17 +366,33 @@ fn main() {
         let target = &args[2];
         let large = args[3] == "large";
         let ins = inputs(target, large);
-        let mut n = 0usize;
-        for i in &ins {
-            n += 1;
-            if let Some(d) = eval(target, i) {
-                println!("SEARCHED {}", n);
-                println!("WITNESS {}", witness(target, i, &d));
-                return;
+        // all cores; the reported witness is the first one in enumeration order, so the result is deterministic
+        let workers = std::thread::available_parallelism().map(|n| n.get()).unwrap_or(4).min(16);
+        let best = std::sync::atomic::AtomicUsize::new(usize::MAX);
+        let found: std::sync::Mutex<Option<(usize, String)>> = std::sync::Mutex::new(None);
+        std::thread::scope(|sc| {
+            for w in 0..workers {
+                let (ins, best, found) = (&ins, &best, &found);
+                sc.spawn(move || {
+                    let mut k = w;
+                    while k < ins.len() && k < best.load(std::sync::atomic::Ordering::Relaxed) {
+                        if let Some(d) = eval(target, &ins[k]) {
+                            let mut f = found.lock().unwrap();
+                            if f.as_ref().map(|(j, _)| k < *j).unwrap_or(true) { *f = Some((k, d)); best.fetch_min(k, std::sync::atomic::Ordering::Relaxed); }
+                            break;
+                        }
+                        k += workers;
+                    }
+                });
             }
+        });
+        match found.into_inner().unwrap() {
+            Some((k, d)) => { println!("SEARCHED {}", k + 1); println!("WITNESS {}", witness(target, &ins[k], &d)); }
+            None => { println!("SEARCHED {}", ins.len()); println!("NONE"); }
         }
-        println!("SEARCHED {}", n);
-        println!("NONE");
+    } else if args.len() >= 4 && args[1] == "all" {
+        // dev helper: every failing input, not just the first
+        for i in inputs(&args[2], args[3] == "large") { if let Some(d) = eval(&args[2], &i) { println!("{} => {}", i, d.chars().take(260).collect::<String>()); } }
     } else if args.len() >= 4 && args[1] == "eval" {
         // replay eval <target> <input>
         match eval(&args[2], &args[3]) {
@@ -400,7 +419,9 @@ mod treeops {
     pub enum Kind { Doc, Elem(&'static str), Text(String), Comment(String), Attr(&'static str, String), Ns(&'static str, &'static str) }
 
     #[derive(Clone, Debug)]
-    pub struct M { pub kind: Vec<Kind>, pub parent: Vec<Option<usize>>, pub kids: Vec<Vec<usize>>, pub alive: Vec<bool> }
+    pub struct M { pub kind: Vec<Kind>, pub parent: Vec<Option<usize>>, pub kids: Vec<Vec<usize>>, pub alive: Vec<bool>,
+        /// the last operation is compared up to which text handle survives a merge (replace / wrap / unwrap)
+        pub loose: bool }
 
     impl M {
         fn is_text(&self, n: usize) -> bool { matches!(self.kind[n], Kind::Text(_)) }
@@ -460,10 +481,83 @@ mod treeops {
                     }
                     self.detach_raw(c); let i = self.pos(r) + if after { 1 } else { 0 }; self.kids[p].insert(i, c); self.parent[c] = Some(p);
                     Ok(true) }
+                // replace: the targeted subtree is destroyed and the replacing node (leaving wherever it was) takes its place
+                "replace" => { self.loose = true;
+                    if self.kind[x] == Kind::Doc { return Ok(false); }
+                    let p = match self.parent[x] { Some(p) => p, None => return Ok(false) };
+                    if !self.normal(x) { return Ok(false); }
+                    if !self.may_adopt(p, y) || self.is_anc_or_self(x, y) { return Ok(false); }
+                    let old = self.parent[y];
+                    self.detach_raw(y); let i = self.pos(x); self.kill(x); self.kids[p].insert(i, y); self.parent[y] = Some(p);
+                    self.normalise(p, cons); if let Some(o) = old { if self.alive[o] { self.normalise(o, cons); } }
+                    Ok(true) }
+                // element_unwrap: exactly the wrapper goes (with its declarations and attributes), its children take its place in order
+                "unwrap" => { self.loose = true;
+                    if !matches!(self.kind[x], Kind::Elem(_)) { return Ok(false); }
+                    let ks: Vec<usize> = self.kids[x].iter().copied().filter(|k| self.normal(*k)).collect();
+                    if ks.is_empty() { return self.apply("remove", x, y, cons); }
+                    let p = match self.parent[x] { Some(p) => p, None => return Ok(false) };
+                    let i = self.pos(x);
+                    for k in &ks { self.detach_raw(*k); }
+                    self.kill(x);
+                    for (j, k) in ks.iter().enumerate() { self.kids[p].insert(i + j, *k); self.parent[*k] = Some(p); }
+                    self.normalise(p, cons);
+                    Ok(true) }
+                // element_wrap: exactly one new element, in the place of the node, with the node as its only child
+                "wrap" => { self.loose = true;
+                    if self.kind[x] == Kind::Doc || !self.normal(x) { return Ok(false); }
+                    if let Some(p) = self.parent[x] { if self.kind[p] == Kind::Doc && !matches!(self.kind[x], Kind::Elem(_)) { return Ok(false); } }
+                    let w = self.kind.len();
+                    self.kind.push(Kind::Elem("w")); self.parent.push(None); self.kids.push(vec![x]); self.alive.push(true);
+                    if let Some(p) = self.parent[x] { let i = self.pos(x); self.kids[p][i] = w; self.parent[w] = Some(p); }
+                    self.parent[x] = Some(w);
+                    Ok(true) }
+                // any_append: ordinary nodes as append; an attribute / namespace node goes through the map view:
+                // an entry with the same key is updated in place, otherwise the node moves behind the last entry
+                "any_append" => { let (p, c) = (x, y);
+                    if self.normal(c) { return self.apply("append", x, y, cons); }
+                    if !matches!(self.kind[p], Kind::Elem(_)) { return Ok(false); }
+                    match self.kids[p].iter().copied().find(|k| self.same_key(*k, c)) {
+                        Some(e) => { self.kind[e] = self.kind[c].clone(); }
+                        None => { self.detach_raw(c); let i = self.map_insertion_index(p, self.cat(c)); self.kids[p].insert(i, c); self.parent[c] = Some(p); }
+                    }
+                    Ok(true) }
+                // attributes_mut(x).insert(name_k, "n") / namespaces_mut(x).insert(prefix_k, urn:new)
+                "attr_set" | "ns_set" => {
+                    if !matches!(self.kind[x], Kind::Elem(_)) { return Err(()); }   // documented panic
+                    let k = if op == "attr_set" { Kind::Attr(ATTR_NAMES[y % 3], "n".into()) } else { Kind::Ns(NS_PREFIXES[y % 3], "urn:new") };
+                    let n = self.kind.len();
+                    self.kind.push(k); self.parent.push(None); self.kids.push(vec![]); self.alive.push(true);
+                    match self.kids[x].iter().copied().find(|e| self.same_key(*e, n)) {
+                        Some(e) => { self.kind[e] = self.kind[n].clone(); self.kind.pop(); self.parent.pop(); self.kids.pop(); self.alive.pop(); }
+                        None => { let i = self.map_insertion_index(x, self.cat(n)); self.kids[x].insert(i, n); self.parent[n] = Some(x); }
+                    }
+                    Ok(true) }
+                "attr_del" | "ns_del" => {
+                    if !matches!(self.kind[x], Kind::Elem(_)) { return Err(()); }   // documented panic
+                    let probe = if op == "attr_del" { Kind::Attr(ATTR_NAMES[y % 3], String::new()) } else { Kind::Ns(NS_PREFIXES[y % 3], "") };
+                    let found = self.kids[x].iter().copied().find(|e| match (&self.kind[*e], &probe) {
+                        (Kind::Attr(a, _), Kind::Attr(b, _)) => a == b, (Kind::Ns(a, _), Kind::Ns(b, _)) => a == b, _ => false });
+                    if let Some(e) = found { self.kill(e); }
+                    Ok(true) }
                 _ => Err(()),
             }
         }
+        /// text nodes that have become adjacent are merged into the earlier one
+        fn normalise(&mut self, p: usize, cons: bool) {
+            if !cons { return; }
+            loop {
+                let ks = self.kids[p].clone();
+                match ks.windows(2).find(|w| self.is_text(w[0]) && self.is_text(w[1])) { Some(w) => self.merge(w[0], w[1]), None => return }
+            }
+        }
+        fn same_key(&self, a: usize, b: usize) -> bool {
+            match (&self.kind[a], &self.kind[b]) { (Kind::Attr(x, _), Kind::Attr(y, _)) => x == y, (Kind::Ns(x, _), Kind::Ns(y, _)) => x == y, _ => false } }
+        /// behind the last entry of that category; attributes behind the namespace nodes; else in front
+        fn map_insertion_index(&self, p: usize, cat: u8) -> usize { self.kids[p].iter().filter(|k| self.cat(**k) <= cat).count() }
     }
+    pub const ATTR_NAMES: [&str; 3] = ["p", "q", "r"];
+    pub const NS_PREFIXES: [&str; 3] = ["n", "m", "k"];
 
     /// build the same forest in the model and in a Xot; `spec` is a small s-expression-like list
     pub fn build(which: usize, cons: bool) -> (M, Xot, Vec<Node>) {
@@ -481,7 +575,7 @@ mod treeops {
         let shape = &shapes[which % shapes.len()];
         let mut xot = Xot::new();
         xot.set_text_consolidation(cons);
-        let mut m = M { kind: vec![], parent: vec![], kids: vec![], alive: vec![] };
+        let mut m = M { kind: vec![], parent: vec![], kids: vec![], alive: vec![], loose: false };
         let mut nodes = vec![];
         for (k, p) in shape {
             let n = match k {
@@ -531,7 +625,7 @@ mod treeops {
     fn value_str(xot: &Xot, n: Node) -> String {
         match xot.value(n) { xot::Value::Text(t) => format!("T:{}", t.get()), xot::Value::Comment(c) => format!("C:{}", c.get()),
             xot::Value::Element(_) => "E".into(), xot::Value::Document => "D".into(), xot::Value::Attribute(a) => format!("A:{}", a.value()),
-            xot::Value::Namespace(_) => "N".into(), _ => "?".into() }
+            xot::Value::Namespace(ns) => format!("N:{}", xot.namespace_str(ns.namespace())), _ => "?".into() }
     }
     fn observe_model(m: &M) -> Vec<String> {
         (0..m.kind.len()).map(|i| {
@@ -539,9 +633,31 @@ mod treeops {
             let parent = m.parent[i].map(|p| p.to_string()).unwrap_or("-".into());
             let kids: Vec<String> = m.kids[i].iter().map(|k| k.to_string()).collect();
             let v = match &m.kind[i] { Kind::Text(t) => format!("T:{}", t), Kind::Comment(c) => format!("C:{}", c), Kind::Elem(_) => "E".into(), Kind::Doc => "D".into(),
-                Kind::Attr(_, v) => format!("A:{}", v), Kind::Ns(..) => "N".into() };
+                Kind::Attr(_, v) => format!("A:{}", v), Kind::Ns(_, u) => format!("N:{}", u) };
             format!("p={} k=[{}] v={:?}", parent, kids.join(","), v)
         }).collect()
+    }
+
+    /// every tree rendered with handle numbers for non-text nodes and contents for text nodes; trees sorted
+    fn canon_real(xot: &Xot, nodes: &[Node]) -> Vec<String> {
+        fn r(xot: &Xot, nodes: &[Node], n: Node) -> String {
+            if let Some(t) = xot.text_str(n) { return format!("T:{:?}", t); }
+            let me = nodes.iter().position(|y| *y == n).map(|i| i.to_string()).unwrap_or("?".into());
+            format!("#{}{}[{}]", me, value_str(xot, n), all_kids(xot, n).into_iter().map(|k| r(xot, nodes, k)).collect::<Vec<_>>().join(","))
+        }
+        let mut v: Vec<String> = nodes.iter().filter(|n| !xot.is_removed(**n) && xot.parent(**n).is_none()).map(|n| r(xot, nodes, *n)).collect();
+        v.sort();
+        v
+    }
+    fn canon_model(m: &M) -> Vec<String> {
+        fn r(m: &M, n: usize) -> String {
+            if let Kind::Text(t) = &m.kind[n] { return format!("T:{:?}", t); }
+            let v = match &m.kind[n] { Kind::Comment(c) => format!("C:{}", c), Kind::Elem(_) => "E".into(), Kind::Doc => "D".into(), Kind::Attr(_, v) => format!("A:{}", v), Kind::Ns(_, u) => format!("N:{}", u), Kind::Text(_) => unreachable!() };
+            format!("#{}{}[{}]", n, v, m.kids[n].iter().map(|k| r(m, *k)).collect::<Vec<_>>().join(","))
+        }
+        let mut v: Vec<String> = (0..m.kind.len()).filter(|n| m.alive[*n] && m.parent[*n].is_none()).map(|n| r(m, n)).collect();
+        v.sort();
+        v
     }
 
     /// C04: structural validity of everything reachable from the live handles, through public navigation only
@@ -582,7 +698,7 @@ mod treeops {
         None
     }
 
-    fn call(xot: &mut Xot, nodes: &[Node], op: &str, x: usize, y: usize) -> Result<bool, ()> {
+    fn call(xot: &mut Xot, nodes: &[Node], op: &str, x: usize, y: usize, made: &mut Option<Node>) -> Result<bool, ()> {
         panic::catch_unwind(panic::AssertUnwindSafe(|| match op {
             "detach" => xot.detach(nodes[x]).is_ok(),
             "remove" => xot.remove(nodes[x]).is_ok(),
@@ -590,25 +706,56 @@ mod treeops {
             "prepend" => xot.prepend(nodes[x], nodes[y]).is_ok(),
             "insert_after" => xot.insert_after(nodes[x], nodes[y]).is_ok(),
             "insert_before" => xot.insert_before(nodes[x], nodes[y]).is_ok(),
+            "any_append" => xot.any_append(nodes[x], nodes[y]).is_ok(),
+            "replace" => xot.replace(nodes[x], nodes[y]).is_ok(),
+            "unwrap" => xot.element_unwrap(nodes[x]).is_ok(),
+            "wrap" => { let w = xot.add_name("w"); match xot.element_wrap(nodes[x], w) { Ok(n) => { *made = Some(n); true } Err(_) => false } }
+            "attr_set" => { let n = xot.add_name(ATTR_NAMES[y % 3]); xot.attributes_mut(nodes[x]).insert(n, "n".to_string()); true }
+            "attr_del" => { let n = xot.add_name(ATTR_NAMES[y % 3]); xot.attributes_mut(nodes[x]).remove(n); true }
+            "ns_set" => { let p = xot.add_prefix(NS_PREFIXES[y % 3]); let u = xot.add_namespace("urn:new"); xot.namespaces_mut(nodes[x]).insert(p, u); true }
+            "ns_del" => { let p = xot.add_prefix(NS_PREFIXES[y % 3]); xot.namespaces_mut(nodes[x]).remove(p); true }
             _ => false,
         })).map_err(|_| ())
     }
 
     /// Some(detail) if the real crate deviates from the model, or leaves an invalid forest, on this call sequence
     pub fn run(which: usize, cons: bool, steps: &[(String, usize, usize)]) -> Option<String> {
-        let (mut m, mut xot, nodes) = build(which, cons);
+        let (mut m, mut xot, mut nodes) = build(which, cons);
         let mut done = String::new();
         for (op, x, y) in steps {
             let (x, y) = (*x, *y);
-            if x >= nodes.len() || y >= nodes.len() { return None; }
+            let unary = op == "detach" || op == "remove" || op == "wrap" || op == "unwrap";
+            m.loose = false;
+            let keyed = op.starts_with("attr_") || op.starts_with("ns_");
+            if x >= nodes.len() || (!keyed && y >= nodes.len()) { return None; }
             // a removed node is not a legal argument
-            if !m.alive[x] || (!(op == "detach" || op == "remove") && !m.alive[y]) { return None; }
+            if !m.alive[x] || (!unary && !keyed && !m.alive[y]) { return None; }
             let before = observe(&xot, &nodes);
             let expected = match m.apply(op, x, y, cons) { Err(()) => return None, Ok(b) => b };
             let here = format!("{}{}({}, {})", done, op, x, y);
-            let ok = match call(&mut xot, &nodes, op, x, y) { Err(()) => return Some(format!("{} panics", here)), Ok(ok) => ok };
+            let mut made = None;
+            let ok = match call(&mut xot, &nodes, op, x, y, &mut made) { Err(()) => return Some(format!("{} panics", here)), Ok(ok) => ok };
+            if let Some(w) = made { if expected { nodes.push(w); } else { return Some(format!("{} returned Ok but the model refuses", here)); } }
+            if m.kind.len() > nodes.len() {
+                // the map call created a node: its handle is found through the map view
+                let h = match &m.kind[nodes.len()] {
+                    Kind::Attr(nm, _) => { let n = xot.add_name(nm); xot.attributes(nodes[x]).get_node(n) }
+                    Kind::Ns(pre, _) => { let p = xot.add_prefix(pre); xot.namespaces(nodes[x]).get_node(p) }
+                    _ => None };
+                match h { Some(h) => nodes.push(h), None => return Some(format!("{}: the new entry is not found through the map view", here)) }
+            }
             let after = observe(&xot, &nodes);
             if ok != expected { return Some(format!("{} returned {} but the model {}", here, if ok { "Ok" } else { "Err" }, if expected { "accepts" } else { "refuses" })); }
+            if expected && m.loose {
+                let (got, want) = (canon_real(&xot, &nodes), canon_model(&m));
+                if ok && got != want { return Some(format!("{} [Ok]: forest {:?} differs from the model {:?}", here, got, want)); }
+                if ok { if let Some(d) = validate(&xot, &nodes, cons) { return Some(format!("{}: structurally invalid forest (C04): {}", here, d)); } }
+                if !ok { return Some(format!("{} returned Err but the model accepts", here)); }
+                // handles of text nodes merged away differ between model and code: re-synchronise the model's liveness
+                for i in 0..nodes.len() { if m.is_text(i) { let dead = xot.is_removed(nodes[i]); if dead == m.alive[i] { return None; } } }
+                done = format!("{}; ", here);
+                continue;
+            }
             let want = if expected { observe_model(&m) } else { before };
             if after != want { return Some(format!("{} [{}]: forest {:?} differs from the model {:?}", here, if ok { "Ok" } else { "Err" }, after, want)); }
             if let Some(d) = validate(&xot, &nodes, cons) { return Some(format!("{}: structurally invalid forest (C04): {}", here, d)); }
@@ -779,6 +926,84 @@ mod bounded {
             (Err(e), Some(w)) => Some(format!("{:?} is well-formed (denotes {:?}) but is rejected: {:?}", doc, w, e)),
             (Err(_), None) => None,
         }
+    }
+
+    /// (C02) line ends and references together: token sequences over literal CR, LF, TAB, space, a letter and
+    /// references to '<', CR, LF, TAB, in character data, in an attribute value and (literals only) in a CDATA section
+    pub fn line_end_inputs(large: bool) -> Vec<String> {
+        let toks = ["\r", "\n", "\t", " ", "a", "&lt;", "&#13;", "&#10;", "&#x9;"];
+        let mut seqs: Vec<String> = vec![String::new()];
+        let mut frontier = seqs.clone();
+        for _ in 0..(if large { 5 } else { 4 }) {
+            let mut next = Vec::new();
+            for s in &frontier { for t in toks { next.push(format!("{}{}", s, t)); } }
+            seqs.extend(next.iter().cloned());
+            frontier = next;
+        }
+        seqs.retain(|s| !s.is_empty());
+        seqs
+    }
+
+    /// XML 1.0 section 2.11 (line ends, before anything else), 4.1 (references), 3.3.3 (attribute-value normalisation)
+    fn xml_norm(s: &str, attribute: bool) -> String {
+        // 2.11 on the literal text
+        let mut lit = String::new();
+        let cs: Vec<char> = s.chars().collect();
+        let mut i = 0;
+        while i < cs.len() {
+            if cs[i] == '\r' { lit.push('\n'); if i + 1 < cs.len() && cs[i + 1] == '\n' { i += 1; } } else { lit.push(cs[i]); }
+            i += 1;
+        }
+        let mut out = String::new();
+        let mut rest = lit.as_str();
+        while !rest.is_empty() {
+            if let Some(r) = rest.strip_prefix('&') {
+                let end = r.find(';').unwrap();
+                out.push(xml_ref_value(&r[..end]).unwrap());
+                rest = &r[end + 1..];
+            } else {
+                let c = rest.chars().next().unwrap();
+                out.push(if attribute && (c == '\n' || c == '\t') { ' ' } else { c });
+                rest = &rest[c.len_utf8()..];
+            }
+        }
+        out
+    }
+
+    pub fn line_ends(input: &str) -> Option<String> {
+        let mut xot = Xot::new();
+        let x = xot.add_name("x");
+        // character data
+        let doc = format!("<a>{}</a>", input);
+        let root = match xot.parse(&doc) { Ok(r) => r, Err(e) => return Some(format!("{:?} is well-formed but rejected: {:?}", doc, e)) };
+        let de = xot.document_element(root).ok()?;
+        let want = xml_norm(input, false);
+        if xot.string_value(de) != want { return Some(format!("{:?}: character data read as {:?}, XML 1.0 says {:?}", doc, xot.string_value(de), want)); }
+        if xot.children(de).count() != 1 { return Some(format!("{:?}: {} child nodes instead of one text node", doc, xot.children(de).count())); }
+        // attribute value, both quote styles
+        for q in ['"', '\''] {
+            let doc = format!("<a x={}{}{}/>", q, input, q);
+            let root = match xot.parse(&doc) { Ok(r) => r, Err(e) => return Some(format!("{:?} is well-formed but rejected: {:?}", doc, e)) };
+            let de = xot.document_element(root).ok()?;
+            let want = xml_norm(input, true);
+            if xot.get_attribute(de, x) != Some(want.as_str()) { return Some(format!("{:?}: attribute read as {:?}, XML 1.0 says {:?}", doc, xot.get_attribute(de, x), want)); }
+        }
+        // CDATA section between text: literals only, one merged text node
+        if !input.contains('&') {
+            let doc = format!("<a>{}<![CDATA[{}]]>{}</a>", input, input, input);
+            let root = match xot.parse(&doc) { Ok(r) => r, Err(e) => return Some(format!("{:?} is well-formed but rejected: {:?}", doc, e)) };
+            let de = xot.document_element(root).ok()?;
+            let one = xml_norm(input, false);
+            let want = format!("{}{}{}", one, one, one);
+            if xot.string_value(de) != want { return Some(format!("{:?}: read as {:?}, XML 1.0 says {:?}", doc, xot.string_value(de), want)); }
+            if xot.children(de).count() != 1 { return Some(format!("{:?}: text / CDATA / text not merged into one text node", doc)); }
+        }
+        // parse_fragment returns the same content as the wrapped parse
+        if let Ok(frag) = xot.parse_fragment(input) {
+            let got: String = xot.children(frag).map(|c| xot.string_value(c)).collect();
+            if got != xml_norm(input, false) { return Some(format!("parse_fragment({:?}) gives {:?}, wrapped parse gives {:?}", input, got, xml_norm(input, false))); }
+        } else { return Some(format!("parse_fragment({:?}) fails although the wrapped text parses", input)); }
+        None
     }
 
     /// level_order against a reference breadth-first traversal built from `children`
